@@ -165,4 +165,23 @@ PROPS = {
                      "T-RA-search / T-RA-look: regex-automata's anchored search returns offsets in [ix, len] on char boundaries with paired slots; LookMatcher is total and the unicode word-boundary variants return Ok",
                      "the inner interpreter loop is verified with exec_allows_no_decreases_clause: termination of a non-failing instruction cycle is NOT proved"],
     ),
+    'C11': dict(
+        level='other',
+        bounded_families=['replace'],
+        explanation=("BOUNDED ONLY. try_replacen and the Replacer impls use iterator adapters (enumerate().peekable()), Cow and trait objects that are outside Verus' dialect, and Kani needs the whole regex engine for them; "
+                     "no contract within reach can carry 'replaces exactly the first n matches'. The property is checked by the bounded family `replace` on the real crate: for every (pattern, text, backtrack limit, n, replacer) "
+                     "of its corpus the result equals the text rebuilt from the real captures_iter sequence with the first n matches replaced, borrowed iff no match, template-without-$ / NoExpand / closure agree, "
+                     "identity closure leaves the text unchanged, an error of the first search is returned as Err. The iteration and slicing it is built on (find_iter / captures_iter steps, Match::as_str) ARE proved (C08, C09, C05)."),
+        residual="Everything beyond the enumerated corpus; Replacer impls for Cow / String / ReplacerRef are exercised only through &str.",
+        assumptions=["the corpus and bounds listed in coverage.bounded"],
+    ),
+    'C12': dict(
+        level='other',
+        bounded_families=['expand'],
+        explanation=("BOUNDED ONLY. Expander::exec / parse_id / parse_decimal are built on Chars::as_str, char_indices().peekable(), closures and full-Unicode char predicates: outside Verus' dialect, and intractable for Kani "
+                     "(probed: char::is_alphanumeric pulls in the Unicode tables). The property is checked by the bounded family `expand`: every template up to length 6 over the property's 14-symbol alphabet "
+                     "(exhaustive in the thorough tier; lengths <= 5 and part of 6 in the quick tier) x 3 captures setups x both expanders against an independent rendering of the documented syntax, plus the escape round trip and check's accept-only-if."),
+        residual="Templates longer than 6 or outside the alphabet; identifiers with non-ASCII alphanumerics other than e-acute.",
+        assumptions=["the corpus and bounds listed in coverage.bounded"],
+    ),
 }
